@@ -14,7 +14,7 @@ func init() {
 			"propagation inside the handlers is NOT proved: that a reply built from control-character-free parts (literals, fields of earlier lines, Sprintf of such values, ToLower/Split/Join/TrimSpace of them) is itself free of control characters is assumed (fmt.Sprintf and irc.ParseMessage are not interpreted)",
 		},
 		NotCovered: []string{
-			"'starting with a prefix and a command': not checked (the closing ERROR line and lines addressed to services links are deliberately emitted without prefix)",
+			"a line without prefix is accepted as well-formed (the closing ERROR line and lines addressed to services links are deliberately emitted without one); what is proved is: the command is never empty and a prefix, when present, has a non-empty name",
 		},
 		Units: []UnitPlan{
 			{"api.HTTP.handlePostMessage", asserts}, {"api.HTTP.handleDeleteSession", asserts},
@@ -26,8 +26,25 @@ func init() {
 		if err != nil {
 			return err
 		}
-		p.Units = append(p.Units[:4], UnitPlan{"ircserver.IRCServer.ProcessMessage", vc.UnitOpts{Post: true, PostOnly: []string{"reply"}}})
+		regs, err := e.ScanRegistrations("ircserver", "Commands")
+		if err != nil {
+			return err
+		}
+		p.Units = append(p.Units[:4], UnitPlan{"ircserver.IRCServer.ProcessMessage", post}, UnitPlan{"ircserver.IRCServer.maybeLogin", post},
+			UnitPlan{"ircserver.NewIRCServer", post}, UnitPlan{"ircserver.Session.updateIrcPrefix", post})
+		for _, h := range []string{"sendChannel", "sendChannelButOne", "sendCommonChannels", "sendAllUsers", "sendServices", "createSessionLocked", "CreateSession", "deleteSessionLocked"} {
+			p.Units = append(p.Units, UnitPlan{"ircserver.IRCServer." + h, post})
+		}
+		// every registered handler: the line handed to a send helper has a command and a usable prefix
+		// (precondition lineOK of the helpers), the prefix invariant wfPrefix is preserved
+		for _, h := range handlerNames(regs) {
+			p.Units = append(p.Units, UnitPlan{h, post})
+		}
+		c15regs = regs
 		return nil
 	}
+	p.ExtraUnits = func(e *vc.Engine) ([]*vc.Unit, error) { return gateLemmaUnits(e, c15regs) }
 	register(p)
 }
+
+var c15regs []vc.Registration
